@@ -66,17 +66,21 @@ Wheres == <<
 Accts == << NoAcct, Acct(FALSE, "Assets"), Acct(TRUE, "Assets:Bank"), Acct(FALSE, "Bank"), Acct(FALSE, "food"),
             Acct(TRUE, "Expenses"), Acct(FALSE, "Nomatch") >>
 
-NF == Len(Froms)
-BalShapes == [n \in 1..(3 * NF * Len(Wheres)) |->
-                [kind |-> "balances", f |-> Fs[((n - 1) % 3) + 1], from |-> Froms[(((n - 1) \div 3) % NF) + 1],
-                 where |-> Wheres[((n - 1) \div (3 * NF)) + 1], acct |-> NoAcct]]
-JrnShapes == [n \in 1..(3 * NF * Len(Accts)) |->
-                [kind |-> "journal", f |-> Fs[((n - 1) % 3) + 1], from |-> Froms[(((n - 1) \div 3) % NF) + 1],
-                 where |-> TrueE, acct |-> Accts[((n - 1) \div (3 * NF)) + 1]]]
-ShapesDef == BalShapes \o JrnShapes
+\* all combinations, as sequences (a statement is identified by its index)
+MkBal(froms, wheres) ==
+    [n \in 1..(3 * Len(froms) * Len(wheres)) |->
+        [kind |-> "balances", f |-> Fs[((n - 1) % 3) + 1], from |-> froms[(((n - 1) \div 3) % Len(froms)) + 1],
+         where |-> wheres[((n - 1) \div (3 * Len(froms))) + 1], acct |-> NoAcct]]
+MkJrn(froms, accts) ==
+    [n \in 1..(3 * Len(froms) * Len(accts)) |->
+        [kind |-> "journal", f |-> Fs[((n - 1) % 3) + 1], from |-> froms[(((n - 1) \div 3) % Len(froms)) + 1],
+         where |-> TrueE, acct |-> accts[((n - 1) \div (3 * Len(froms))) + 1]]]
+MkPrint(froms) == [n \in DOMAIN froms |-> [kind |-> "print", f |-> "none", from |-> froms[n], where |-> TrueE, acct |-> NoAcct]]
+ShapesDef == MkBal(Froms, Wheres) \o MkJrn(Froms, Accts)
 
-(* ---- OPEN / CLOSE / CLEAR: every subset of the clauses except OPEN with a bare CLOSE (a separate defect, C13);
-        only their texts are generated here -- the summarised entry list they produce is C13's subject ---- *)
+(* ---- OPEN / CLOSE / CLEAR: every subset of the clauses except OPEN with a bare CLOSE (a separate defect, C13).
+        The summarised entry list they produce is C13's subject: here the clauses only travel through the expansion,
+        and the recorded rows are judged against the summarised posting table (Trace_Statements). ---- *)
 ClauseFrom(e, o, ck, cd, cl) == [present |-> TRUE, expr |-> e, open |-> o, close |-> [k |-> ck, d |-> cd], clear |-> cl]
 ClauseCombos == <<
     <<Some(D20200601), "none", "", FALSE>>, <<Some(D20200601), "none", "", TRUE>>,
@@ -87,13 +91,42 @@ ClauseCombos == <<
 ClauseExprs == << TrueE, CmpE("year", "=", 2020, "2020") >>
 ClauseFroms == [n \in 1..(2 * Len(ClauseCombos)) |->
                   LET c == ClauseCombos[((n - 1) \div 2) + 1] IN ClauseFrom(ClauseExprs[((n - 1) % 2) + 1], c[1], c[2], c[3], c[4])]
-NCF == Len(ClauseFroms)
-ClauseShapes ==
-    [n \in 1..(6 * NCF) |-> [kind |-> "balances", f |-> Fs[((n - 1) % 3) + 1], from |-> ClauseFroms[((n - 1) \div 6) + 1],
-                             where |-> Wheres[(((n - 1) \div 3) % 2) + 1], acct |-> NoAcct]]
-    \o [n \in 1..(6 * NCF) |-> [kind |-> "journal", f |-> Fs[((n - 1) % 3) + 1], from |-> ClauseFroms[((n - 1) \div 6) + 1],
-                                where |-> TrueE, acct |-> Accts[(((n - 1) \div 3) % 2) + 1]]]
-    \o [n \in 1..NCF |-> [kind |-> "print", f |-> "none", from |-> ClauseFroms[n], where |-> TrueE, acct |-> NoAcct]]
+
+(* ---- statement shapes for the recorded (code -> spec) runs on the Beancount example ledger and on random ledgers that
+        use the same vocabulary; the driver takes texts AND filter expressions from the table TLC prints ---- *)
+BigFroms == <<
+    NoFrom,
+    FromE(CmpE("year", "=", 2020, "2020")),
+    FromE(AndE(CmpE("date", ">=", 20200601, D20200601), CmpE("payee", "=", "Kin Soy", Quote("Kin Soy")))),
+    FromE(HasAcct(FALSE, "Vanguard")),
+    FromE(OrE(CmpE("payee", "=", "Kin Soy", Quote("Kin Soy")), CmpE("flag", "=", "!", Quote("!")))),
+    FromE(NotE(CmpE("year", "=", 2020, "2020"))),
+    FromE(MatchE("narration", FALSE, "Eating out")) >> \o ClauseFroms
+BigWheres == <<
+    TrueE,
+    MatchE("account", FALSE, "Assets"),
+    CmpE("currency", "=", "USD", Quote("USD")),
+    AndE(MatchE("account", FALSE, "food"), CmpE("year", "=", 2020, "2020")) >>
+BigAccts == << NoAcct, Acct(FALSE, "Assets"), Acct(TRUE, "Assets:US:BofA"), Acct(FALSE, "Checking"), Acct(FALSE, "food"),
+               Acct(TRUE, "Expenses"), Acct(FALSE, "Nomatch") >>
+BigPrintFroms == <<
+    NoFrom,
+    FromE(CmpE("year", "=", 2020, "2020")),
+    FromE(CmpE("type", "=", "transaction", Quote("transaction"))),
+    FromE(CmpE("flag", "=", "*", Quote("*"))),
+    FromE(CmpE("payee", "=", "Kin Soy", Quote("Kin Soy"))),
+    FromE(MatchE("narration", FALSE, "Eating out")),
+    FromE(HasAcct(FALSE, "Vanguard")),
+    FromE(AndE(CmpE("year", "=", 2020, "2020"), CmpE("payee", "=", "Kin Soy", Quote("Kin Soy")))),
+    FromE(OrE(CmpE("payee", "=", "Kin Soy", Quote("Kin Soy")), CmpE("type", "=", "open", Quote("open")))),
+    FromE(CmpE("date", "<", 20200601, D20200601)),
+    FromE(NotE(CmpE("type", "=", "transaction", Quote("transaction")))),
+    FromE(OrE(CmpE("flag", "=", "!", Quote("!")), CmpE("date", ">=", 20210101, D20210101))),
+    FromE(HasAcct(TRUE, "Expenses:Food")),
+    FromE(AndE(MatchE("payee", FALSE, "o"), CmpE("month", "<=", 2, "2"))),
+    FromE(CmpE("type", "=", "balance", Quote("balance"))),
+    FromE(OrE(CmpE("type", "=", "price", Quote("price")), CmpE("narration", "=", "Payroll", Quote("Payroll")))) >> \o ClauseFroms
+BigShapes == MkBal(BigFroms, BigWheres) \o MkJrn(BigFroms, BigAccts) \o MkPrint(BigPrintFroms)
 
 (* ---- PRINT: one abstract directive of every type; the driver holds the concrete directive of every id ---- *)
 Dir(id, ty, d, fl, pa, na, ac) == [id |-> id, type |-> ty, date |-> d, flag |-> fl, payee |-> pa, narration |-> na, accounts |-> ac]
@@ -145,5 +178,5 @@ KnownStringsDef ==
 KnownPatsDef ==
     UNION {PatsOf(Froms[k].expr) : k \in DOMAIN Froms} \cup UNION {PatsOf(Wheres[k]) : k \in DOMAIN Wheres}
     \cup {Accts[k].p : k \in DOMAIN Accts} \cup UNION {PatsOf(PrintFroms[k].expr) : k \in DOMAIN PrintFroms}
-PrintShapesDef == [n \in DOMAIN PrintFroms |-> [kind |-> "print", f |-> "none", from |-> PrintFroms[n], where |-> TrueE, acct |-> NoAcct]]
+PrintShapesDef == MkPrint(PrintFroms)
 =============================================================================
